@@ -318,7 +318,8 @@ def configs(tier, seed):
         cfgs.append(Config('plant 3-D nm=%d nd=%d flags=%s' % (nm, nd, ''.join(map(str, flags))), h_plant(flags, nm, nd), 3000))
     cfgs.append(Config('chain cube->read->fit()->file->write_parameters nm=2', h_chain(2), 3000))
     if not q:
-        cfgs.append(Config('chain cube->read->fit()->file->write_parameters nm=3', h_chain(3), 6000))
+        # three models: only the reversed parameter file (all six row orders for each of the three planted models ran past 6000 s)
+        cfgs.append(Config('chain cube->read->fit()->file->write_parameters nm=3 (parameter rows reversed)', h_chain(3, perm_all=False), 6000))
     return cfgs
 
 
